@@ -65,7 +65,7 @@ var pool = func() []poolEntry {
 		"2^53", "0.5", "-0.5", "(0/0)", "math.huge", "-math.huge",
 		`""`, `"a"`, `"%"`, `"%b"`, `"["`, `"(()"`, "C04.big", `"10"`, `"0x10"`, `"1e1"`, "io.stdout")
 	add(true, true, "{}", "{1,2,3}", "C04.errt()", "C04.fn()", "C04.deadco()", "C04.suspco()", "C04.file()", "C04.ctx()")
-	add(false, false, "2", "127", "128", "0x7FF", "0x800", "0xFFFF", "0x110000", "0x1FFFFF", "0x3FFFFFF", "-0.0", "1e308", `" 7 "`, `"-"`, `"\0"`, `"\xe4\xb8\xad\xff"`,
+	add(false, false, "2", "3", "4", "5", "6", "-2", "-3", "-4", "-5", "127", "128", "0x7FF", "0x800", "0xFFFF", "0x110000", "0x1FFFFF", "0x3FFFFFF", "-0.0", "1e308", `" 7 "`, `"-"`, `"\0"`, `"\xe4\xb8\xad\xff"`,
 		`"%d"`, `"%s%s"`, `"%5.2f"`, `"%q"`, `"%c"`, `"%99d"`, `"%.99f"`, `"%a*"`, `"^(a*)*$"`, `"%f[%w]"`, `"%1"`,
 		`"i4"`, `"z"`, `"s1"`, `"!"`, `"i17"`, `"<I16"`, `"Xi4"`, `"c0"`, `"d"`,
 		`"r"`, `"w"`, `"n"`, `"l"`, `"*a"`, `"set"`, `"end"`, `"no"`, `"full"`, `"k"`, `"kv"`, `"count"`, `"step"`, `"*t"`, `"!%c"`, `"%Ez"`, `"Sl"`, `"crl"`, `"t"`, `"bt"`,
@@ -516,6 +516,48 @@ func runStdlib(x *exec) {
 	}
 	if c.Batch == 0 {
 		c.Feature("exhaustive-arity<=2-calls-enumerated", int64(k))
+	}
+	// positions: every string / utf8 / table function with a short subject and every pair of
+	// small positions around its ends (0, +-1 ... +-(len+2)): the off-by-one corners of
+	// (subject, i, j) and (subject, n, i) argument forms
+	{
+		idxOf := func(expr string) int {
+			for i, e := range pool {
+				if e.expr == expr {
+					return i
+				}
+			}
+			return -1
+		}
+		var subjects, positions []int
+		for _, e := range []string{`""`, `"a"`, `"(()"`, `"\xe4\xb8\xad\xff"`, "{1,2,3}"} {
+			if i := idxOf(e); i >= 0 {
+				subjects = append(subjects, i)
+			}
+		}
+		for _, e := range []string{"-5", "-4", "-3", "-2", "-1", "0", "1", "2", "3", "4", "5", "6", "math.maxinteger", "math.mininteger"} {
+			if i := idxOf(e); i >= 0 {
+				positions = append(positions, i)
+			}
+		}
+		k := 0
+		for _, fn := range fnList {
+			if !strings.HasPrefix(fn, "string.") && !strings.HasPrefix(fn, "utf8.") && !strings.HasPrefix(fn, "table.") {
+				continue
+			}
+			for _, sj := range subjects {
+				for _, p1 := range positions {
+					for _, p2 := range positions {
+						k++
+						if !c.Mine(k) || x.slice(10) < 10 && k%10 != 0 {
+							continue
+						}
+						lr.call(fn, []int{sj, p1, p2})
+					}
+				}
+			}
+		}
+		c.Feature("position-corner-calls-enumerated", int64(k))
 	}
 	// sampled arity 3-4
 	r := c.Rand("stdlib-sampled")
